@@ -27,7 +27,9 @@ ATTRS = [{}, {"class": "c"}, {"style": "s-1", "id": "i2"}, {"class": "a b"}, {"T
 HTML_SKIP = {"pre", "nowiki", "section", "noinclude", "includeonly", "onlyinclude", "math", "chem", "ce", "hiero", "score",
              "syntaxhighlight", "source", "templatestyles", "timeline", "gallery", "imagemap", "inputbox", "poem"}
 URLS = ["http://x.y/a.", "https://x.y/?q=1&r=2,", "//x.y/p!", "ftp://x.y/a?", "http://x.y/a_(b)", "mailto:a@b.org", "http://x.y/a;b"]
-ARG_ATOMS = ["text", " pad ", "{{c|1}}", "[[n]]", "k=v", "", "a b", "x:y", "2", "\n x=1", "\n* b", "\n", ":c", "[[n]]\n q", "{{lc:X}}", "{{#if:x|y|z}}", "a\n----\nb"]
+ARG_ATOMS = ["text", " pad ", "{{c|1}}", "[[n]]", "k=v", "", "a b", "x:y", "2", "\n x=1", "\n* b", "\n", ":c", "[[n]]\n q", "{{lc:X}}", "{{#if:x|y|z}}", "a\n----\nb",
+             # a piped link whose label holds a bracketed construct (the label becomes encodable only after the bracket pass)
+             "[[n|b [c] d]]", "[[n|w[o]rd]]", "[[n|[http://x.y site]]]"]
 
 
 def attrstr(a, quote='"'):
